@@ -202,6 +202,31 @@ func bodySchema(r *simfw.RNG, rq string, withDefaults bool) (*Node, map[string]a
 			v["extra"] = branchValue()
 		}
 	}
+	if feat("arrxof", 1, 4) {
+		// oneOf / anyOf over arrays whose element schemas carry defaults
+		arrBranch := func(kind, prop string, dflt any) *Node {
+			return &Node{Type: "array", Kind: kind, Items: &Node{Type: "object", Required: []string{"kind"}, Props: map[string]*Node{
+				"kind": {Type: "string", Enum: []any{kind}}, prop: {Default: dflt}, "tag": {Type: "string"}}}}
+		}
+		bs := []*Node{arrBranch("cat", "lives", float64(9)), arrBranch("dog", "loud", true)}
+		if r.Bool() {
+			n.Props["list"] = &Node{OneOf: bs}
+		} else {
+			n.Props["list"] = &Node{AnyOf: bs}
+		}
+		if r.Chance(3, 4) {
+			kind := simfw.Pick(r, []string{"cat", "dog"})
+			var arr []any
+			for i, k := 0, r.Range(1, 3); i < k; i++ {
+				el := map[string]any{"kind": kind}
+				if r.Bool() {
+					el["tag"] = fmt.Sprintf("t%d", i)
+				}
+				arr = append(arr, el)
+			}
+			v["list"] = arr
+		}
+	}
 	if feat("allof", 1, 4) {
 		n.AllOf = []*Node{
 			{Type: "object", Props: map[string]*Node{"a1": {Type: "string", Default: "x"}}},
